@@ -67,6 +67,9 @@ def lib_function(stderr_text):
 
 
 def crash_key(stderr_text, returncode):
+    m = re.search(r'VF-ORACLE-VIOLATION key=(\S+)', stderr_text)
+    if m:
+        return m.group(1)
     m = re.search(r'ERROR: AddressSanitizer: ([\w-]+)', stderr_text)
     if m:
         return 'asan:%s:%s' % (m.group(1), lib_function(stderr_text[m.start():]))
